@@ -467,6 +467,21 @@ func (x *Exec) initialState(fn *ssa.Function, spec *FuncSpec) *State {
 		f.Vars[fv.Name()] = pv
 		f.VarAddr[fv.Name()] = true
 	}
+	// a recursive closure calls itself through the captured variable that holds it
+	if spec != nil {
+		if self := spec.Options["self-freevar"]; self != "" {
+			for i, fv := range fn.FreeVars {
+				if fv.Name() == self {
+					if pv, ok := f.Free[i].(*PtrVal); ok && pv.Cell != nil {
+						me := &FuncVal{Fn: fn, Free: f.Free, ID: x.newID()}
+						x.regFunc(me)
+						s.Cells[pv.Cell] = me
+						s.OldCells[pv.Cell] = me
+					}
+				}
+			}
+		}
+	}
 	s.Frames = []*Frame{f}
 	if x.OnInit != nil {
 		x.OnInit(s, f)
